@@ -452,6 +452,12 @@ impl StatementBatch {
             self is Timeout ==> final(h).st(old(h).cur) == old(h).st(old(h).cur),
             //# W1-only-open-tasks
             self is Timeout && st_terminal(old(h).st(old(h).cur)) ==> final(h).queue == old(h).queue,
+            //# W1-a-rule-touches-only-its-own-mark
+            self is Timeout ==> final(h).cur == old(h).cur && final(h).now == old(h).now && final(h).hooks == old(h).hooks
+                && final(h).tasks[old(h).cur] == (TaskAbs { flags: final(h).tasks[old(h).cur].flags, ..old(h).tasks[old(h).cur] })
+                && (forall|on: Seq<char>| #[trigger] timeout_flag(old(h).tasks[old(h).cur], on) ==> timeout_flag(final(h).tasks[old(h).cur], on)),
+            //# W1-a-parsable-rule-does-not-fail
+            self is Timeout && parse_limit(self->Timeout_0.on@) is Ok ==> ret is Ok,
 //@@ loop 1
         invariant
             //# catch-steps-scheduled
@@ -460,10 +466,18 @@ impl StatementBatch {
         invariant
             //# timeout-steps-scheduled
             h.cur == old(h).cur && h.links_rev == old(h).links_rev && h.queue.len() == old(h).queue.len() + __i2
-                && h.tasks[h.cur] == (TaskAbs { flags: h.tasks[h.cur].flags, ..old(h).tasks[old(h).cur] }) && timeout_flag(h.tasks[h.cur], t.on@),
+                && h.tasks[h.cur] == (TaskAbs { flags: h.tasks[h.cur].flags, ..old(h).tasks[old(h).cur] }) && timeout_flag(h.tasks[h.cur], t.on@)
+                && h.now == old(h).now && h.hooks == old(h).hooks
+                && (forall|on: Seq<char>| #[trigger] timeout_flag(old(h).tasks[old(h).cur], on) ==> timeout_flag(h.tasks[h.cur], on)),
 //@@ end
 }
 
+// the Timeout list of a task holds timeout rules only (Task::add_hook_timeout is its only writer: primitive layer)
+pub open spec fn only_rules(l: Seq<StatementBatch>) -> bool { forall|j: int| 0 <= j < l.len() ==> (#[trigger] l[j]) is Timeout }
+// a timeout rule whose limit parses and has passed for the current task (C19: "no later than one tick after that")
+pub open spec fn rule_due(h: Heap, on: Seq<char>) -> bool {
+    parse_limit(on) is Ok && h.now - h.tasks[h.cur].start_time >= limit_secs(parse_limit(on)->Ok_0) * 1000
+}
 impl Task {
 //@@ extract file=acts/src/scheduler/process/task.rs in="impl Task" item="fn run_hooks_by" name=Task::run_hooks_by props=C06,C16,C19
 //@@ rw R11 `self . hooks . read ( ) . unwrap ( )` => `self.hooks_snapshot()`
@@ -481,10 +495,20 @@ impl Task {
             //# G5-plain-lists-only-add-tasks
             !(key is ErrorCatch) && !(key is Timeout) ==> final(h).cur == old(h).cur && final(h).proc_state == old(h).proc_state
                 && forall|x: Tid| #[trigger] old(h).has(x) ==> final(h).tasks[x] == old(h).tasks[x],
+            //# W4-every-due-timeout-rule-fires-also-beside-a-rule-that-fails [C19]
+            key is Timeout && old(h).cur == self.id@ && !st_terminal(old(h).st(self.id@)) && hooks_of(*old(h), self.id@).dom().contains(key)
+                && only_rules(hooks_of(*old(h), self.id@)[key])
+                ==> forall|j: int| 0 <= j < hooks_of(*old(h), self.id@)[key].len() && (#[trigger] hooks_of(*old(h), self.id@)[key][j]) is Timeout
+                        && rule_due(*old(h), hooks_of(*old(h), self.id@)[key][j]->Timeout_0.on@)
+                    ==> timeout_flag(final(h).tasks[self.id@], hooks_of(*old(h), self.id@)[key][j]->Timeout_0.on@),
 //@@ loop 1
         invariant
             //# untouched-before-the-first-batch
-            __i1 == 0 ==> *h == *old(h),
+            __i1 == 0 ==> *h == *old(h) && ret is Ok,
+            //# due-rules-fired-so-far
+            key is Timeout && old(h).cur == self.id@ && !st_terminal(old(h).st(self.id@)) && only_rules(__v1@) ==> h.cur == old(h).cur && h.now == old(h).now
+                && h.tasks[h.cur] == (TaskAbs { flags: h.tasks[h.cur].flags, ..old(h).tasks[old(h).cur] })
+                && (forall|j: int| 0 <= j < __i1 && (#[trigger] __v1@[j]) is Timeout && rule_due(*old(h), __v1@[j]->Timeout_0.on@) ==> timeout_flag(h.tasks[h.cur], __v1@[j]->Timeout_0.on@)),
             //# list-is-the-snapshot
             __v1@ == (if hooks_of(*old(h), self.id@).dom().contains(key) { hooks_of(*old(h), self.id@)[key] } else { Seq::<StatementBatch>::empty() }) && hooks_ok(*old(h)),
             //# plain-lists-only-add-tasks
@@ -565,14 +589,33 @@ pub proof fn lemma_emit_summary(a: Heap, b1: Heap, t: Tid)
                 ==> final(h).messages.len() > 0 && final(h).messages.last() == (e.id@, msg_state_of(final(h).st(e.id@))),
             //# S2-task-row-written-first
             final(h).upserts.len() > old(h).upserts.len() && final(h).upserts[old(h).upserts.len() as int] == e.id@,
+            //# S3-the-store-holds-the-state-in-which-the-event-leaves-the-task [C11]
+            exists|k: int| old(h).saved.len() <= k < final(h).saved.len() && (#[trigger] final(h).saved[k]).0 == e.id@ && final(h).saved[k].1.state == final(h).st(e.id@),
 //@@ proof after=ignore_err#1
         let ghost h1 = *h;
 //@@ proof after=ignore_err#2
         let ghost h2 = *h;
+//@@ proof before=is_pending#1
+        let ghost h3 = *h;
 //@@ proof at=end
         proof {
             //# M2-a-message-of-this-event-reports-the-state-the-event-was-raised-for [C08]
             assert(h.messages.len() > h2.messages.len() ==> h.st(e.id@) == old(h).st(e.id@));
+            //# S3-a-task-moved-on-by-its-hooks-is-written-again [C11]
+            let m = old(h).saved.len() as int;
+            assert(h1.saved[m] == (e.id@, old(h).tasks[e.id@]));
+            assert(h1.saved.is_prefix_of(h.saved));
+            assert(h.saved.subrange(0, h1.saved.len() as int) =~= h1.saved);
+            assert(h.saved.subrange(0, h1.saved.len() as int)[m] == h.saved[m]);
+            if h.st(e.id@) != old(h).st(e.id@) {
+                let m3 = h2.saved.len() as int;
+                assert(h.saved.len() > m3 && h.saved[m3].0 == e.id@ && h.saved[m3].1.state == h.st(e.id@)) by {
+                    assert(h3.saved[m3] == (e.id@, h2.tasks[e.id@]));
+                    assert(h3.saved.is_prefix_of(h.saved));
+                    assert(h.saved.subrange(0, h3.saved.len() as int) =~= h3.saved);
+                    assert(h.saved.subrange(0, h3.saved.len() as int)[m3] == h.saved[m3]);
+                }
+            }
             let n = old(h).upserts.len() as int;
             assert(h1.upserts.is_prefix_of(h.upserts));
             assert(h.upserts.subrange(0, h1.upserts.len() as int) =~= h1.upserts);
